@@ -137,6 +137,16 @@ pub fn record(out_path: &str, count: u64, panics: bool) {
             }
         }
     }
+    // UTF-32 code units that are no scalar values: beyond U+10FFFF and inside the surrogate range
+    for (i, unit) in [0x0011_0000u32, 0x0011_0001, 0x7fff_ffff, 0xffff_ffff, 0xd800, 0xdfff, 0x0010_ffff].into_iter().enumerate() {
+        for le in [true, false] {
+            let mut b: Vec<u8> = vec![];
+            for u in [0xfeffu32, 'a' as u32, ':' as u32, ' ' as u32, '"' as u32, unit, '"' as u32, '\n' as u32] {
+                b.extend_from_slice(&if le { u.to_le_bytes() } else { u.to_be_bytes() });
+            }
+            inputs.push((format!("utf32-unit-boundary-{i}-{}", if le { "le" } else { "be" }), b));
+        }
+    }
     for (ii, (label, bytes)) in inputs.into_iter().enumerate() {
         let mut rng = Rng::derive(seed, "chunker-run", ii as u64);
         let bytes = Rc::new(bytes);
